@@ -108,7 +108,9 @@ BrowserLegit(u) == IF u.quirk = "none" THEN HostLegit(u.host) ELSE FALSE
 \* loose: URL patterns only, and a pattern that matches anything (operators do write such patterns): scheme, query and
 \* parent-directory rules are not the patterns' business and still apply
 \* prefixpat: URL patterns only, one pattern that fixes scheme and host and lets any path follow ("^https://...example\.com/")
-ClientCfgs == {"domains", "patterns", "both", "neither", "unknown", "loose", "prefixpat"}
+\* brokenpat: domains, and URL patterns of which none can be used (a look-ahead the pattern engine does not know): patterns ARE
+\* configured, none matches anything - no URL qualifies
+ClientCfgs == {"domains", "patterns", "both", "neither", "unknown", "loose", "prefixpat", "brokenpat"}
 PrefixPatternMatches(u) == /\ u.scheme = "https" /\ u.quirk = "none" /\ u.host \in {"exact", "sub", "subsub", "localhost_sub"}
                            /\ u.port = "none" /\ u.path # "empty"
 PatternMatches(u) == /\ u.scheme = "https" /\ u.quirk = "none" /\ u.host \in {"exact", "sub", "subsub", "localhost_sub"}
@@ -128,13 +130,14 @@ G_C13_NoQuery(u, o) == o.redirected => EffQuery(u) \notin QueryClasses
 \* traildotdot / enctraildotdot: the parent-directory segment is the LAST one (nothing after it)
 DotDotPaths == {"dotdot", "encdotdot", "mixdotdot", "traildotdot", "enctraildotdot"}
 G_C13_NoDotDot(u, o) == o.redirected => EffPath(u) \notin DotDotPaths
-G_C13_Host(u, c, o) == (o.redirected /\ c \in {"domains", "both"}) => BrowserLegit(u)
+G_C13_Host(u, c, o) == (o.redirected /\ c \in {"domains", "both", "brokenpat"}) => BrowserLegit(u)
+G_C13_BrokenPattern(r, o) == (o.redirected /\ r.client = "brokenpat") => r.site = "cors"
 G_C13_Pattern(r, o) == (o.redirected /\ r.client \in {"patterns", "both"} /\ r.site # "cors") => PatternMatches(r.url)
 G_C13_PrefixPattern(r, o) == (o.redirected /\ r.client = "prefixpat" /\ r.site # "cors") => PrefixPatternMatches(r.url)
 G_C13_KnownClient(c, o) == o.redirected => c \notin {"unknown", "neither"}
 C13Guards(r, o) == {<<"G_C13_Https", G_C13_Https(r.url, o)>>, <<"G_C13_NoQuery", G_C13_NoQuery(r.url, o)>>,
                     <<"G_C13_NoDotDot", G_C13_NoDotDot(r.url, o)>>, <<"G_C13_Host", G_C13_Host(r.url, r.client, o)>>,
-                    <<"G_C13_Pattern", G_C13_Pattern(r, o)>>, <<"G_C13_PrefixPattern", G_C13_PrefixPattern(r, o)>>,
+                    <<"G_C13_Pattern", G_C13_Pattern(r, o)>>, <<"G_C13_PrefixPattern", G_C13_PrefixPattern(r, o)>>, <<"G_C13_BrokenPattern", G_C13_BrokenPattern(r, o)>>,
                     <<"G_C13_KnownClient", G_C13_KnownClient(r.client, o)>>, <<"G_C10_NoPanic", ~o.panic>>,
                     \* a plain legitimate URL of a properly configured client must work (non-vacuity)
                     <<"G_C13_LegitimateWorks", (r.url = PlainLegit /\ (r.client \in {"domains", "both"} \/
